@@ -25,6 +25,13 @@ def cases(tier, seed):
         out.append(dict(src=s, family="converted-values-as-indices-and-parameters"))
     for s in gen.folded_value_cases():
         out.append(dict(src=s, family="values-through-initialisers-booleans-and-array-elements"))
+    # the outputs of the other checks' enumerated families must be well-formed flat programs as well
+    step = 3 if tier == "quick" else 1
+    for fam, progs in (("scope-shapes", gen.scope_cases()), ("repeated-calls", gen.repeated_call_cases()), ("subroutine-argument-shapes", gen.subroutine_arg_cases(3)),
+                       ("modifiers", gen.modifier_cases(rnd)), ("loop-ranges", gen.loop_range_cases()), ("loop-dependent-slices", gen.loop_slice_cases()),
+                       ("subroutine-body-blocks", gen.sub_body_block_cases()), ("broadcast", gen.broadcast_cases())):
+        for s in progs[::step]:
+            out.append(dict(src=s, family=fam))
     # programs with a checked error: they are rejected; whatever unroll() accepts nevertheless must still be flat,
     # re-loadable and a fixpoint (the clauses hold of every output, not only of the outputs of valid programs)
     for cls, ctx, src in gen.error_cases():
@@ -150,7 +157,7 @@ def direct(run, chk):
     # on the real outputs: a well-formed output that does not load again or is changed by a second unroll is a failure
     # of the property shown twice (by the run above and by the theorem through the model)
     idx = [i for i, (o, r) in enumerate(zip(run.outcomes, res)) if o.get("unroll") == "ok" and o.get("stmts_term") and r[0] not in ("rejected", "unconvertible")]
-    idx = idx[: (400 if chk.tier == "quick" else 4000)]
+    idx = idx[: (900 if chk.tier == "quick" else 6000)]
     wf = wellformed([run.outcomes[i]["stmts_term"] for i in idx])
     wft = {"well-formed": 0, "not-well-formed": 0, "not-evaluated": 0, "not-well-formed-by-known-shape": {}}
     for i, w in zip(idx, wf):
